@@ -226,7 +226,10 @@ def initial_trees(chunk):
                 yield model.MT(1, toks, root)
 
 
-MID_PROBES = [((1, 3, 5), 2, 4), ((1, 3), (2, 5), 4), ((1, 4), (2, 5), (3, 6)), ((1, 2, (3, 5)), 4, 6), ((1, 3, 5, 7), 2, 4, 6)]
+# (root_attach, the prerequisite of boyd_split, empties the gaps of a node whose gap material hangs below the
+# root: the probes therefore also hold the gap material below other constituents)
+MID_PROBES = [((1, 3, 5), 2, 4), ((1, 3), (2, 5), 4), ((1, 4), (2, 5), (3, 6)), ((1, 2, (3, 5)), 4, 6), ((1, 3, 5, 7), 2, 4, 6),
+              ((1, 3, 5), (2, 4)), (((1, 3, 5), 2, 4),), (((1, 3, 5, 7), (2, 6), 4),)]
 
 
 def probe_trees(chunk):
@@ -273,7 +276,7 @@ def plan(tier, seed):
                        'transformation calls, each checked by the step invariants; traces = states without '
                        'unexplored successors (every path to them is an implementation trace)',
         'assumptions': ['driver differential (vt/clipipe.py): four structural pipelines with --params, with and without --split, must write what the named functions give when applied by the harness in the given order',
-                        'beyond the bound: BFS (depth %d / %d) also from 5 fixed 5-7-token hierarchies with three blocks or interleaved gaps and from the 11-13-token size probes' % ((3, 2) if tier == 'quick' else (4, 3)),
+                        'beyond the bound: BFS (depth %d / %d) also from 8 fixed 5-7-token hierarchies with three blocks or interleaved gaps and from the 11-13-token size probes' % ((3, 2) if tier == 'quick' else (4, 3)),
                         'canonical form is a sound state abstraction (DESIGN.md §3.4)',
                         'head marks count as present only if no restructuring happened since (prerequisite reading)',
                         'raising is enabled after boyd_split until binarize/collapse/uncollapse rebuild nodes (they carry no split marks)',
